@@ -148,16 +148,16 @@ type ChoicePoint struct {
 
 // Exec is one complete execution.
 type Exec struct {
-	Choices  []int
-	Points   []ChoicePoint
-	Trace    []Step
-	Deadlock bool
-	Blocked  []string // description of blocked threads on deadlock
-	Panics   []string // per thread ("" none)
-	Sites    []string
-	Misuse   string // e.g. unlock of unlocked mutex
-	Hang     bool
-	Cost     int // preemptions + deviations taken
+	Choices   []int
+	Points    []ChoicePoint
+	Trace     []Step
+	Deadlock  bool
+	Blocked   []string // description of blocked threads on deadlock
+	Panics    []string // per thread ("" none)
+	Sites     []string
+	Misuse    string // e.g. unlock of unlocked mutex
+	Hang      bool
+	Cost      int // preemptions + deviations taken
 	CrossPool int // Get answers that returned an object last Put by another thread
 }
 
@@ -171,22 +171,22 @@ func (x *Exec) TraceString() string {
 
 // Options configure an exploration.
 type Options struct {
-	Bound        int  // max preemptions+deviations; <0 = unbounded
-	PoolChoices  bool // explore Pool.Get answers (recycled top / other / New) as deviations
-	MaxExecs     int64
-	Deadline     time.Time
-	StopAtFirst  bool // stop exploring after the first execution for which Check returned false
-	HangTimeout  time.Duration
+	Bound       int  // max preemptions+deviations; <0 = unbounded
+	PoolChoices bool // explore Pool.Get answers (recycled top / other / New) as deviations
+	MaxExecs    int64
+	Deadline    time.Time
+	StopAtFirst bool // stop exploring after the first execution for which Check returned false
+	HangTimeout time.Duration
 }
 
 // Result summarises an exploration.
 type Result struct {
-	Execs      int64
-	Steps      int64
-	MaxCost    int
-	Capped     bool
-	Diverged   string // non-empty: replay divergence (hard error)
-	ChoicePts  int64
+	Execs     int64
+	Steps     int64
+	MaxCost   int
+	Capped    bool
+	Diverged  string // non-empty: replay divergence (hard error)
+	ChoicePts int64
 }
 
 // Explorer runs bodies under all schedules.
